@@ -37,8 +37,9 @@ type PeerPlan struct {
 	MOTD      []string `json:"motd"` // master only, before the SID
 	FW        []string `json:"fw"`   // entries of the ;FW: line ("CALL" or "CALL|12345678"); empty = no line
 	Challenge string   `json:"challenge"`
-	Prompt    string   `json:"prompt"`  // master: last handshake line, ends with '>'
-	Comment   string   `json:"comment"` // slave: last handshake line, starts with ';'
+	PQFirst   bool     `json:"pq_first,omitempty"` // the ;PQ line goes out before the SID line instead of after it
+	Prompt    string   `json:"prompt"`             // master: last handshake line, ends with '>'
+	Comment   string   `json:"comment"`            // slave: last handshake line, starts with ';'
 	Outbound  []OutMsg `json:"outbound"`
 	// Answers maps a MID proposed by the station under test to the answer token the peer gives:
 	// + Y y (accept), - N n R r (reject), = L l H h (defer), !0 A0 a0 (accept from offset 0),
@@ -215,10 +216,15 @@ func (p *peer) sendOwnHandshake() error {
 			return err
 		}
 	}
+	if p.plan.Master && p.plan.Challenge != "" && p.plan.PQFirst {
+		if err := p.line("handshake", "pq", ";PQ: "+p.plan.Challenge); err != nil {
+			return err
+		}
+	}
 	if err := p.line("handshake", "sid", p.plan.SID); err != nil {
 		return err
 	}
-	if p.plan.Master && p.plan.Challenge != "" {
+	if p.plan.Master && p.plan.Challenge != "" && !p.plan.PQFirst {
 		if err := p.line("handshake", "pq", ";PQ: "+p.plan.Challenge); err != nil {
 			return err
 		}
